@@ -1,0 +1,16 @@
+//go:build verif
+// +build verif
+
+package streams
+
+// VerifPeek returns the current buffer length, number of dependents and buffer
+// limit, read under the stream's own mutex. Only compiled with the `verif`
+// build tag.
+func (stdin *Stdin) VerifPeek() (buffered int, dependents int32, max int) {
+	stdin.mutex.Lock()
+	buffered = len(stdin.buffer)
+	dependents = stdin.dependents
+	max = stdin.max
+	stdin.mutex.Unlock()
+	return
+}
